@@ -13,6 +13,9 @@ import (
 // the case: the framework then retires this worker process. If f neither returns nor burns that
 // much CPU within wallCap the call is abandoned as well, with spun=false (inconclusive).
 // A panic of f is re-raised on the caller's goroutine.
+// CPUMillis: CPU time (user+system) this process has used, in ms.
+func CPUMillis() int64 { return cpuMillis() }
+
 func CPUGuard(f func(), cpuLimit, wallCap time.Duration) (returned, spun bool) {
 	done := make(chan struct{})
 	var pan any
